@@ -76,6 +76,15 @@ impl SegmentIndexWriter {
                     format!("Failed to write index to file: {}. {error}", self.file_path)
                 })
                 .map_err(|_| IggyError::CannotSaveIndexToSegment)?;
+            // The write returns as soon as the data is buffered; the record has to be in the file
+            // before its size is made visible to the readers.
+            self.file
+                .flush()
+                .await
+                .with_error_context(|error| {
+                    format!("Failed to flush index file: {}. {error}", self.file_path)
+                })
+                .map_err(|_| IggyError::CannotSaveIndexToSegment)?;
         }
         if self.fsync {
             let _ = self.fsync().await;
